@@ -200,7 +200,7 @@ def gen_congruence(tier, rng):
     maxr = 5 if tier == "quick" else 6
     calls = []
     # (a) independent random factor sets
-    n_rand = 150 if tier == "quick" else 900
+    n_rand = 150 if tier == "quick" else 500
     for k in range(n_rand):
         r = 1 + k % maxr
         nm = rng.choice([1, 1, 2, 3])
@@ -211,7 +211,7 @@ def gen_congruence(tier, rng):
     # (b) equivalent copies: every permutation for rank <= 4 (thorough: <= 5), sampled scalings
     for r in range(1, (5 if tier == "quick" else 6)):
         for sigma in itertools.permutations(range(r)):
-            reps = 1 if (tier == "quick" and r == 4) else 2
+            reps = 1 if r == (4 if tier == "quick" else 5) else 2
             for rep in range(reps):
                 nm = rng.choice([1, 2, 3])
                 hs = [rng.randint(2, 5) for _ in range(nm)]
@@ -221,7 +221,7 @@ def gen_congruence(tier, rng):
                 B = equivalent_copy(A, sigma, ds)
                 calls.append(dict(As=A, Bs=B, absv=absv, single=(nm == 1 and rng.random() < 0.5), sigma=list(sigma),
                                   generic=True, stream="equivalent"))
-    for _ in range(20 if tier == "quick" else 150):   # larger ranks, sampled permutations
+    for _ in range(20 if tier == "quick" else 80):   # larger ranks, sampled permutations
         r = maxr
         sigma = list(range(r)); rng.shuffle(sigma)
         nm = rng.choice([1, 2, 3]); hs = [rng.randint(2, 5) for _ in range(nm)]
@@ -229,7 +229,7 @@ def gen_congruence(tier, rng):
         B = equivalent_copy(A, sigma, scalings(rng, r, nm, "signed"))
         calls.append(dict(As=A, Bs=B, absv=True, sigma=sigma, generic=True, stream="equivalent"))
     # (c) ties: repeated columns / sign patterns -> several optimal matchings, compared by value
-    for _ in range(25 if tier == "quick" else 150):
+    for _ in range(25 if tier == "quick" else 100):
         r = rng.randint(2, maxr); nm = rng.choice([1, 2]); hs = [rng.randint(1, 4) for _ in range(nm)]
         A = factor_set(rng, r, hs)
         j, k2 = rng.sample(range(r), 2)
@@ -239,7 +239,7 @@ def gen_congruence(tier, rng):
         B = equivalent_copy(A, sigma, scalings(rng, r, nm, "signed")) if rng.random() < 0.5 else factor_set(rng, r, hs)
         calls.append(dict(As=A, Bs=B, absv=rng.choice([True, False]), stream="ties"))
     # (d) perturbed copies (matching still recoverable but value < 1)
-    for _ in range(30 if tier == "quick" else 200):
+    for _ in range(30 if tier == "quick" else 100):
         r = rng.randint(2, maxr); nm = rng.choice([1, 2, 3]); hs = [rng.randint(3, 6) for _ in range(nm)]
         A = factor_set(rng, r, hs, generic=True)
         sigma = list(range(r)); rng.shuffle(sigma)
@@ -271,9 +271,15 @@ def call_permute(call):
     ref = CPTensor((tl.tensor(call["wref"].copy()), [tl.tensor(a.copy()) for a in call["As"]]))
     t = CPTensor((tl.tensor(call["w"].copy()), [tl.tensor(b.copy()) for b in call["Bs"]]))
     if call.get("as_list"):
-        st, v = C.call_impl(cp_permute_factors, ref, [t, t])
+        # a list of two DIFFERENT tensors; the one under test sits at position `pick`
+        other = CPTensor((tl.tensor(call["w_other"].copy()), [tl.tensor(b.copy()) for b in call["Bs_other"]]))
+        pick = call.get("pick", 0)
+        lst = [t, other] if pick == 0 else [other, t]
+        st, v = C.call_impl(cp_permute_factors, ref, lst)
         if st == "ok":
-            v = (v[0][call.get("pick", 0)], [v[1][call.get("pick", 0)]])
+            if not (isinstance(v[0], list) and len(v[0]) == 2 and len(v[1]) == 2):
+                return "ok", (None, None)
+            v = (v[0][pick], [v[1][pick]])
         return st, v
     return C.call_impl(cp_permute_factors, ref, t)
 
@@ -284,6 +290,8 @@ def pred_permute(call, out):
     if st != "ok":
         return [("C20_permute_defined", f"valid input raised: {v}")]
     pt, perms = v
+    if pt is None:
+        return [("C20_permute_aligned", "a list of two CP tensors did not yield two permuted tensors and two permutations")]
     perm = [int(x) for x in np.asarray(perms[0]).ravel()]
     r = call["As"][0].shape[1]
     fails = []
@@ -316,7 +324,9 @@ def emit_permute(cid, call, out):
     st, v = out
     As, Bs = call["As"], call["Bs"]
     nas = [col_norms(a) for a in As]; nbs = [col_norms(b) for b in Bs]
-    if st == "ok":
+    if st == "ok" and v[0] is None:
+        impl = "(Ok ((@nil Q), (@nil (mat Q)), (@nil nat)))"
+    elif st == "ok":
         pt, perms = v
         w2, f2 = pt
         perm = [int(x) for x in np.asarray(perms[0]).ravel()]
@@ -329,19 +339,25 @@ def emit_permute(cid, call, out):
 
 def gen_permute(tier, rng):
     calls = []
-    n = 60 if tier == "quick" else 400
+    n = 60 if tier == "quick" else 240
     for k in range(n):
         r = 1 + k % (4 if tier == "quick" else 5)
         nm = rng.choice([2, 3]); hs = [rng.randint(2, 4) for _ in range(nm)]
         A = factor_set(rng, r, hs, generic=True)
         wref = np.array([rng.choice([0.5, 1.0, 2.0, 3.0]) for _ in range(r)])
         w = np.array([rng.choice([0.5, 1.0, 2.0, 3.0, -1.0]) for _ in range(r)])
+        as_list = (k % 4 == 0)
+        extra = {}
+        if as_list:     # the second tensor of the list: another equivalent copy with its own permutation and weights
+            s2 = list(range(r)); rng.shuffle(s2)
+            extra = dict(Bs_other=equivalent_copy(A, s2, scalings(rng, r, nm, "signed")),
+                         w_other=np.array([rng.choice([0.25, 1.5, 4.0, -2.0]) for _ in range(r)]))
         if k % 3 != 2:
             sigma = list(range(r)); rng.shuffle(sigma)
             B = equivalent_copy(A, sigma, scalings(rng, r, nm, "signed"))
-            calls.append(dict(As=A, Bs=B, w=w, wref=wref, sigma=sigma, as_list=(k % 4 == 0), pick=k % 2, stream="equivalent"))
+            calls.append(dict(As=A, Bs=B, w=w, wref=wref, sigma=sigma, as_list=as_list, pick=(k // 4) % 2, stream="equivalent", **extra))
         else:
-            calls.append(dict(As=A, Bs=factor_set(rng, r, hs), w=w, wref=wref, as_list=(k % 4 == 0), pick=k % 2, stream="random"))
+            calls.append(dict(As=A, Bs=factor_set(rng, r, hs), w=w, wref=wref, as_list=as_list, pick=(k // 4) % 2, stream="random", **extra))
     return calls
 
 
@@ -403,7 +419,7 @@ def emit_corridx(cid, call, out):
 def gen_corridx(tier, rng):
     calls = []
     maxr = 5
-    n = 30 if tier == "quick" else 200
+    n = 30 if tier == "quick" else 120
     for meth in METHODS:
         for k in range(n):
             r = 1 + k % maxr
@@ -609,7 +625,7 @@ def gen_reg(tier, rng):
     dims = [1, 2, 3, 4, 5, 8]
     shapes = [(d,) for d in dims] + [(a, b) for a in (1, 2, 3, 4) for b in (2, 3, 4, 8)] + [(2, 3, 2), (2, 2, 4), (3, 1, 2), (4, 2, 2)]
     if tier == "thorough":
-        shapes += [tuple(rng.choice(dims) for _ in range(rng.randint(1, 4))) for _ in range(60)]
+        shapes += [tuple(rng.choice(dims) for _ in range(rng.randint(1, 4))) for _ in range(30)]
     for s in shapes:
         for name in REG:
             axes = [None] if name == "R2_score" else [None] + list(range(len(s) + 1))
